@@ -433,7 +433,18 @@ let judge_merge f =
     | Some _, Some _ -> if st = "err" && not (is_null_s doc) then F "well-formed inputs rejected" else P
     | _ -> if st = "ok" then F "ill-formed input accepted" else P in
   let c02, c05, c15 =
-    if mm then S "mm", S "mm", S "mm" else
+    if mm then S "mm", S "mm",
+               (if st <> "ok" then S "no-output" else
+                  match den_s out with
+                  | None -> F "output is not well-formed JSON"
+                  | Some od ->
+                    if utf8_ok doc && utf8_ok patch && not (utf8_ok out) then F "output not UTF-8" else
+                      (match dv, pv, model with
+                       | Some _, Some _, MOut mb when nodup_s doc && nodup_s patch ->
+                         (match den_s (string_of_bytes mb) with
+                          | Some mv -> if jeq od mv && jeq mv od then P else F "the output does not read back as the intended value (the combined patch)"
+                          | None -> P)
+                       | _ -> P)) else
     match dv, pv with
     | Some _, Some _ when not (is_null_s doc) && nodup_s doc && nodup_s patch ->
       if st <> "ok" then F ("MergePatch fails: " ^ ek), S "failed", S "failed" else
@@ -447,7 +458,8 @@ let judge_merge f =
                      | Some ot, Some dt, Some pt -> List.exists (fun l -> not (List.mem l (lits dt)) && not (List.mem l (lits pt))) (lits ot)
                      | _ -> true) then F "a number literal of the output occurs in neither input"
             else P),
-           (if utf8_ok doc && utf8_ok patch && not (utf8_ok out) then F "output not UTF-8" else P)
+           (if not (jeq od spec && jeq spec od) then F "the output does not read back as the intended value (the RFC 7396 result)"
+            else if utf8_ok doc && utf8_ok patch && not (utf8_ok out) then F "output not UTF-8" else P)
          | None, _, _ -> F "output does not parse", F "output does not parse", F "output is not well-formed JSON"
          | _ -> S "spec", S "spec", S "spec")
     | _ -> S "domain", S "domain", S "domain" in
@@ -564,7 +576,18 @@ let judge_create ?(v4=false) f =
           else if st = "ok" then F "inputs that are not both objects / arrays of objects accepted" else P
       end
     | _ -> S "ill-formed" in
-  let c15 = if st = "ok" then (match parse_s out with Some _ -> if utf8_ok a && utf8_ok b && not (utf8_ok out) then F "not UTF-8" else P | None -> F "output is not well-formed JSON") else S "no-output" in
+  let c15 = if st = "ok" then (match parse_s out with
+      | Some _ ->
+        if utf8_ok a && utf8_ok b && not (utf8_ok out) then F "not UTF-8" else
+          (* reads back as the intended value: in the domain of C03 (no repeated names, no aliased numbers)
+             the value of the output is the value of the model's output *)
+          (match c03, model, den_s out with
+           | (P | F _), MOut mb, Some ov ->
+             (match den_s (string_of_bytes mb) with
+              | Some mv -> if jeq ov mv && jeq mv ov then P else F "the output does not read back as the intended patch"
+              | None -> P)
+           | _ -> P)
+      | None -> F "output is not well-formed JSON") else S "no-output" in
   let fid = match model with
     | MOut mb -> if st = "ok" && string_of_bytes mb = out then P else D "model differs"
     | MErr _ -> if st = "err" then P else D "model errs" in
